@@ -200,6 +200,12 @@ def m1(ctx, rep, T):
             elif not (kind_ == 'lit' and x == ''):
                 merged.append((kind_, x))
         if len(merged) >= 2 and merged[0][0] == 'val':
+            # a stem computed by a method / function of cli/src/parse.rs that was not expanded (a method of a private enum chosen per
+            # language): not followed — no verdict
+            local = {g['name'].split('::')[-1] for g in ctx.astq['functions'] if g['file'] == ofn['file']}
+            hidden = sorted({str(x.get('f')).split('::')[-1] for x in vt.walk(merged[0][1]) if x.get('k') == 'call' and str(x.get('f')).split('::')[-1] in local})
+            if hidden:
+                raise core.Incomplete(f"M1: output_file_name computes the file stem through {hidden} (not expanded): the stem per language is not followed")
             h = vt.strip(merged[0][1])
             plain = isinstance(h, dict) and h.get('k') == 'atom' and h.get('root') == crate_p and not h.get('path')
             dot = merged[1][0] == 'lit' and merged[1][1].startswith('.')
